@@ -32,19 +32,84 @@ Proof.
   rewrite Z.min_l by lia. rewrite Nat2Z.id. apply firstn_all2. rewrite skipn_length. lia.
 Qed.
 
-Section Csv.
+(* ---- upd over all rows = Render.column *)
+Lemma upd_cons tv t c r : upd (tv :: t) (c :: r) = upd1 tv c :: upd t r.
+Proof. reflexivity. Qed.
+Lemma upd_nil_r tvs : upd tvs [] = tvs.
+Proof. destruct tvs; reflexivity. Qed.
+Lemma upd_nil_l r : upd [] r = [].
+Proof. reflexivity. Qed.
+
+Definition cell_at (r : list cellv) (i : nat) : list cellv := match nth_error r i with Some v => [v] | None => [] end.
+
+Lemma non_null_one c : non_null [c] = match c with CNull => [] | _ => [c] end.
+Proof. destruct c; reflexivity. Qed.
+
+Lemma upd_nth d : forall tvs r, length (upd tvs r) = length tvs /\
+  forall i, (i < length tvs)%nat ->
+    nth i (upd tvs r) d = (fst (nth i tvs d), snd (nth i tvs d) ++ non_null (cell_at r i)).
+Proof.
+  induction tvs as [|tv t IH]; intros r.
+  - split; [reflexivity|]. intros i H. cbn in H. lia.
+  - destruct r as [|c r].
+    + rewrite upd_nil_r. split; [reflexivity|]. intros i H. unfold cell_at. destruct i; cbn [nth_error non_null filter];
+        rewrite app_nil_r; apply surjective_pairing.
+    + rewrite upd_cons. destruct (IH r) as [L N]. split; [cbn; now rewrite L|].
+      intros [|i] H.
+      * cbn [nth]. unfold upd1, cell_at. cbn [nth_error]. rewrite non_null_one. destruct c; try reflexivity.
+        now rewrite app_nil_r.
+      * cbn [nth]. cbn in H. rewrite N by lia. reflexivity.
+Qed.
+
+Lemma column_cons i r rows : column i (r :: rows) = non_null (cell_at r i) ++ column i rows.
+Proof. unfold column, non_null, cell_at. cbn [flat_map]. apply filter_app. Qed.
+
+Lemma fold_upd_nth d : forall rows tvs, length (fold_left upd rows tvs) = length tvs /\
+  forall i, (i < length tvs)%nat ->
+    nth i (fold_left upd rows tvs) d = (fst (nth i tvs d), snd (nth i tvs d) ++ column i rows).
+Proof.
+  induction rows as [|r rows IH]; intros tvs.
+  - split; [reflexivity|]. intros i H. cbn [fold_left]. unfold column. cbn. rewrite app_nil_r. apply surjective_pairing.
+  - cbn [fold_left]. destruct (IH (upd tvs r)) as [L N]. destruct (upd_nth d tvs r) as [L1 N1].
+    split; [now rewrite L|]. intros i H. rewrite N by (rewrite L1; exact H). rewrite N1 by exact H.
+    cbn [fst snd]. rewrite column_cons, app_assoc. reflexivity.
+Qed.
+
+Lemma map2_length {A B C} (g : A -> B -> C) : forall la lb, length la = length lb -> length (map2 g la lb) = length lb.
+Proof. induction la as [|a la IH]; intros [|b lb] H; cbn in *; try lia. now rewrite IH by lia. Qed.
+
+Lemma map2_seq_nth {B C} (g : nat -> B -> C) db dc : forall (l : list B) k i, (i < length l)%nat ->
+  nth i (map2 g (seq k (length l)) l) dc = g (k + i)%nat (nth i l db).
+Proof.
+  induction l as [|b l IH]; intros k i H; cbn in H; [lia|]. cbn [length seq map2].
+  destruct i as [|i]; cbn [nth]; [now rewrite Nat.add_0_r|]. rewrite IH by lia. f_equal. lia.
+Qed.
+
+Lemma col_states_fold quant o (desc : list (str * dtype)) rows :
+  map (rstate_of quant o) (fold_left upd rows (map (fun d => (snd d, [])) desc)) = col_states quant o desc rows.
+Proof.
+  set (tvs0 := map (fun d : str * dtype => (snd d, @nil cellv)) desc).
+  destruct (fold_upd_nth (TObject, []) rows tvs0) as [L N].
+  assert (L0 : length tvs0 = length desc) by (unfold tvs0; apply map_length).
+  unfold col_states.
+  apply (nth_ext _ _ (rstate_of quant o (TObject, [])) (TObject, SPlain 0)).
+  - rewrite map_length, L, L0. symmetry. apply map2_length. apply seq_length.
+  - intros i H. rewrite map_length, L, L0 in H.
+    rewrite (map_nth (rstate_of quant o)). rewrite N by (rewrite L0; exact H).
+    rewrite (map2_seq_nth (fun i (d : str * dtype) => (snd d, col_prepare quant o (snd d) (column i rows)))
+               ((@nil Z, TObject) : str * dtype) (TObject, SPlain 0) desc 0 i H). cbn [Nat.add].
+    unfold tvs0. rewrite (nth_indep _ (TObject, []) ((fun d : str * dtype => (snd d, @nil cellv)) (@nil Z, TObject)))
+      by (rewrite map_length; exact H).
+    rewrite (map_nth (fun d : str * dtype => (snd d, @nil cellv))). reflexivity.
+Qed.
+
+Section Prime.
 Variable call_ref : nat -> list pv -> pv.
 Variable quant : dec -> str -> dec.
 Variable numfmt : list (dec * str) -> dec -> str -> str.
 Notation PT := (prims_top quant numfmt).
-Variables (dc : pv) (ex : bool) (nl : str).
-Definition oc : opts := mkopts false false false ex true nl [44].
-Notation ctx := (enc_ctx dc oc).
-Notation rnd := (rend dc oc).
-
-Definition res_val (r : res pv) : pv := match r with Ok v => v | Exc k => PV (VErr k) | Stuck => PV (VErr 0) end.
-Hypothesis Hget : forall t c, call_ref 0 [enc_rdtype t; c] = robj t c [].
-Hypothesis Hrr : forall a b c, call_ref 1 [a; b; c] = res_val (call_function call_ref PT render_rows_fn [a; b; c]).
+Variables (dc : pv) (o : opts).
+Notation rnd := (rend dc o).
 
 Definition csv_loop : list stmt := Eval cbv in match nth 3 (f_body render_csv_fn) SPass with SFor _ _ b => b | _ => [] end.
 Definition csv_inner : list stmt := Eval cbv in match nth 1 csv_loop SPass with SForUnpack _ _ b => b | _ => [] end.
@@ -140,4 +205,142 @@ Proof.
   - intros x H1 H2 H3 H4 H5. rewrite lookup_update_neq by exact H4. rewrite Hf1 by assumption.
     rewrite lookup_update_neq by exact H1. apply lookup_update_neq. exact H5.
 Qed.
+
+Lemma prime_rows : forall rows tvs loc, lookup "renderers" loc = Some (PList (map rnd tvs)) ->
+  exists loc',
+  for_loop call_ref PT csv_loop "row" {| locals := loc; fields := [] |} (map enc_rrow rows) =
+  Ok (Next {| locals := loc'; fields := [] |}) /\
+  lookup "renderers" loc' = Some (PList (map rnd (fold_left upd rows tvs))) /\
+  (forall x, String.eqb x "$new" = false -> String.eqb x "value" = false -> String.eqb x "renderer" = false ->
+             String.eqb x "renderers" = false -> String.eqb x "row" = false -> lookup x loc' = lookup x loc).
+Proof.
+  induction rows as [|r rows IH]; intros tvs loc Hr.
+  - exists loc. repeat split; auto.
+  - cbn [map for_loop fold_left].
+    destruct (prime_row tvs r loc Hr) as [loc1 [E1 [Hr1 F1]]]. rewrite E1. cbn [bind].
+    destruct (IH (upd tvs r) loc1 Hr1) as [loc' [E [Hr' F]]].
+    exists loc'. split; [exact E|]. split; [exact Hr'|].
+    intros x H1 H2 H3 H4 H5. rewrite F by assumption. apply F1; assumption.
+Qed.
+
+Lemma prepare_prim tv :
+  PT "call:prepare" [rnd tv] = Ok (PInt (Z.of_nat (st_width numfmt (col_prepare quant o (fst tv) (snd tv))))).
+Proof. unfold rend. cbn -[dec_robj robj enc_ctx Z.of_nat]. rewrite dec_enc_robj. reflexivity. Qed.
+
+End Prime.
+
+Section Csv.
+Variable call_ref : nat -> list pv -> pv.
+Variable quant : dec -> str -> dec.
+Variable numfmt : list (dec * str) -> dec -> str -> str.
+Notation PT := (prims_top quant numfmt).
+Variables (dc : pv) (ex : bool) (nl : str).
+Definition oc : opts := mkopts false false false ex true nl [44].
+Notation ctx := (enc_ctx dc oc).
+Notation rnd := (rend dc oc).
+
+Definition res_val (r : res pv) : pv := match r with Ok v => v | Exc k => PV (VErr k) | Stuck => PV (VErr 0) end.
+Hypothesis Hget : forall t c, call_ref 0 [enc_rdtype t; c] = robj t c [].
+Hypothesis Hrr : forall a b c, call_ref 1 [a; b; c] = res_val (call_function call_ref PT render_rows_fn [a; b; c]).
+
+Local Arguments enc_rcell : simpl never.
+Local Arguments pv_is_none : simpl never.
+Local Arguments rend : simpl never.
+
+Definition csv_stmt (i : nat) : stmt := nth i (f_body render_csv_fn) SPass.
+Lemma csv_shape : f_body render_csv_fn =
+  [csv_stmt 0; csv_stmt 1; csv_stmt 2; SFor "row" (XName "rows") csv_loop; csv_stmt 4; csv_stmt 5; csv_stmt 6; csv_stmt 7].
+Proof. reflexivity. Qed.
+
+Lemma writerow_call f names :
+  method_call PT "writerow" (csv_writer f) [PList (map enc_s names)] = Ok (csv_writer (f ++ csv_record names), PNone).
+Proof.
+  unfold csv_writer at 1. cbn -[prims_top]. cbn -[n_map_opt csv_record]. rewrite dec_enc_strs. reflexivity.
+Qed.
+
+Lemma writerows_call f vs recs : n_map_opt line_of vs = Some recs ->
+  method_call PT "writerows" (csv_writer f) [PList vs] = Ok (csv_writer (f ++ flat_map csv_record recs), PNone).
+Proof.
+  intros H. unfold csv_writer at 1. cbn -[prims_top]. cbn -[n_map_opt csv_record line_of]. rewrite H. reflexivity.
+Qed.
+
+Local Arguments method_call : simpl never.
+Local Arguments call_function : simpl never.
+Local Arguments csv_writer : simpl never.
+
+Theorem render_csv_src : forall (desc : list (str * dtype)) (rows : list (list cellv)) (f0 : str),
+  exists s',
+  PyMini.exec_block call_ref PT
+    {| locals := [("columns", PList (map enc_rcolumn desc)); ("rows", PList (map enc_rrow rows)); ("dcontext", dc);
+                  ("file", enc_s f0); ("expand", PBool ex); ("nullvalue", enc_s nl)]; fields := [] |}
+    (f_body render_csv_fn) = Ok (Next s') /\
+  lookup "writer" (locals s') =
+  Some (csv_writer (f0 ++ flat_map csv_record
+          (map fst desc :: render_rows numfmt oc (col_states quant oc desc rows) rows))).
+Proof.
+  intros desc rows f0. rewrite csv_shape. unfold csv_stmt, render_csv_fn. cbn [f_body nth].
+  set (tvs0 := map (fun d : str * dtype => (snd d, @nil cellv)) desc).
+  (* ctx = RenderContext(...) *)
+  rewrite exec_block_cons. erewrite exec_assign; [|reflexivity].
+  cbn [bind write locals fields update String.eqb Ascii.eqb Bool.eqb].
+  (* renderers = [_get_renderer(column.datatype, ctx) for column in columns] *)
+  rewrite exec_block_cons.
+  erewrite exec_assign.
+  2:{ erewrite eval_listcomp; [|reflexivity].
+      rewrite (map_res_ok _ (fun v => match v with PTuple [_; _; t] => PTuple [PInt 60; t; ctx; PList []] | _ => PNone end));
+        [reflexivity|].
+      intros v Hv. apply in_map_iff in Hv. destruct Hv as [[n t] [<- _]]. cbn -[enc_rdtype]. rewrite Hget. reflexivity. }
+  match goal with |- context [map ?g (map enc_rcolumn desc)] =>
+    replace (map g (map enc_rcolumn desc)) with (map rnd tvs0)
+      by (unfold tvs0; rewrite !map_map; apply map_ext; intros [n t]; reflexivity) end.
+  cbn [bind write locals fields update String.eqb Ascii.eqb Bool.eqb].
+  (* headers = [column.name for column in columns] *)
+  rewrite exec_block_cons.
+  erewrite exec_assign.
+  2:{ erewrite eval_listcomp; [|reflexivity].
+      rewrite (map_res_ok _ (fun v => match v with PTuple [_; n; _] => n | _ => PNone end)); [reflexivity|].
+      intros v Hv. apply in_map_iff in Hv. destruct Hv as [[n t] [<- _]]. reflexivity. }
+  match goal with |- context [map ?g (map enc_rcolumn desc)] =>
+    replace (map g (map enc_rcolumn desc)) with (map enc_s (map fst desc))
+      by (rewrite !map_map; apply map_ext; intros [n t]; reflexivity) end.
+  cbn [bind write locals fields update String.eqb Ascii.eqb Bool.eqb].
+  (* the priming loop *)
+  rewrite exec_block_cons.
+  erewrite (exec_for call_ref PT "row" (XName "rows") csv_loop _ _ (map enc_rrow rows)); [|reflexivity].
+  match goal with |- context [for_loop _ _ _ _ {| locals := ?L; fields := _ |} _] =>
+    destruct (prime_rows call_ref quant numfmt dc oc rows tvs0 L eq_refl) as [loc1 [E1 [Hr1 F1]]] end.
+  rewrite E1. cbn [bind].
+  pose proof (F1 "file" eq_refl eq_refl eq_refl eq_refl eq_refl) as Hfile.
+  pose proof (F1 "headers" eq_refl eq_refl eq_refl eq_refl eq_refl) as Hhead.
+  pose proof (F1 "rows" eq_refl eq_refl eq_refl eq_refl eq_refl) as Hrows.
+  pose proof (F1 "ctx" eq_refl eq_refl eq_refl eq_refl eq_refl) as Hctx.
+  cbn in Hfile, Hhead, Hrows, Hctx. clear F1 E1.
+  set (tvsF := fold_left upd rows tvs0) in *.
+  (* [render.prepare() for render in renderers] *)
+  rewrite exec_block_cons.
+  assert (E4 : PyMini.exec call_ref PT {| locals := loc1; fields := [] |}
+                 (SExpr (XListComp (XCallMethod (XName "render") "prepare" []) "render" (XName "renderers") None)) =
+               Ok (Next {| locals := loc1; fields := [] |})).
+  { cbn [PyMini.exec]. erewrite eval_listcomp; [|cbn; rewrite Hr1; reflexivity].
+    rewrite (map_res_ok _ (fun v => res_val (PT "call:prepare" [v]))); [reflexivity|].
+    intros v Hv. apply in_map_iff in Hv. destruct Hv as [tv [<- _]].
+    cbn -[prims_top rend]. step_env. cbn -[prims_top rend]. rewrite (prepare_prim quant numfmt dc oc). reflexivity. }
+  rewrite E4. cbn [bind].
+  (* writer = csv.writer(file); writer.writerow(headers); writer.writerows(render_rows(rows, renderers, ctx)) *)
+  rewrite exec_block_cons. erewrite exec_assign; [|cbn; rewrite Hfile; reflexivity].
+  cbn [bind write locals fields].
+  rewrite exec_block_cons.
+  repeat (progress (cbn -[prims_top]; step_env; rewrite ?Hhead, ?writerow_call)).
+  repeat (progress (cbn -[prims_top]; step_env; rewrite ?Hrows, ?Hr1, ?Hctx)).
+  rewrite Hrr. change (PTuple [PInt 61; dc; PBool ex; PV (VStr [44]); PBool false; enc_s nl]) with ctx.
+  rewrite (render_rows_pv call_ref quant numfmt dc oc tvsF rows).
+  repeat (progress (cbn -[prims_top]; step_env)).
+  erewrite writerows_call; [|apply rows_pv_lines].
+  repeat (progress (cbn -[prims_top]; step_env)). eexists. split; [reflexivity|].
+  cbn [locals]. rewrite lookup_update_eq. unfold tvsF, tvs0. rewrite col_states_fold. cbn [flat_map]. rewrite <- app_assoc. reflexivity.
+Qed.
 End Csv.
+
+Lemma csv_refs : nth_error refs 0 = Some (0%nat, "beanquery.query_render._get_renderer") /\
+  nth_error refs 1 = Some (1%nat, "beanquery.query_render.render_rows").
+Proof. split; reflexivity. Qed.
